@@ -310,3 +310,82 @@ class HeaderRead(Contract):
             ("encoded-header-decoded-at-most-once", len(dec) <= 1),
             ("header-parsed-at-most-once", len(parsed) <= 1),
         ]
+
+
+@contract
+class FilesInfoRead(Contract):
+    """FilesInfo._read: NUMBER numfiles, then property records (id, NUMBER size, size bytes) until END.  Every record is
+    confined to its own `size` bytes (a sub-buffer), so a record can neither read into the next one nor desynchronise the
+    walk; kDummy padding is skipped by exactly `size` bytes; each known property id is handed to the reader that the
+    format assigns to it (times by kind, names, attributes, empty-stream / empty-file vectors); unknown ids raise"""
+
+    target = "py7zr.archiveinfo:FilesInfo._read"
+    props = ("C06", "C05", "C08")
+    abstract = True
+    opaque = ("archiveinfo:read_uint64", "archiveinfo:read_boolean", "archiveinfo:FilesInfo._read_name", "archiveinfo:FilesInfo._read_times", "archiveinfo:FilesInfo._read_attributes", "archiveinfo:FilesInfo._read_start_pos")
+    pure = ("map", "list", "count")
+    noraise = ("BytesIO", "map", "list", "count", "tell")
+    frame_preserving = ("BytesIO", "map", "list", "count", "tell", "seek", "read", "read_uint64", "read_boolean")
+    stable_attrs = ("files",)
+    int_functions = ()
+    unroll_limit = 4
+
+    def setup(self, c):
+        return {"self_": c.opq("self"), "fp": c.opq("fp")}
+
+    def raises(self):
+        return [RaiseSpec("Exception")]
+
+    def loops(self):
+        def noinv(c, Lp):
+            return []
+
+        def rec_asserts(c, Lp):
+            eng = c.eng
+            me, fp = c.bound["self_"], c.bound["fp"]
+            evs = eng.trace[Lp.trace_mark:]
+            reads = [e for e in evs if e.kind == "call" and e.name.endswith("read") and e.recv is fp]
+            nums = [e for e in evs if e.kind in ("call", "contract-call") and e.name.endswith("read_uint64") and e.args and e.args[0] is fp]
+            seeks = [e for e in evs if e.kind == "call" and e.name.endswith("seek") and e.recv is fp]
+            bios = [e for e in evs if e.kind == "call" and e.name.endswith("BytesIO")]
+            subs = [e for e in evs if e.kind in ("call", "contract-call") and e.name.split(".")[-1] in ("_read_name", "_read_times", "_read_attributes", "_read_start_pos", "read_boolean")]
+            out = []
+            if not nums:
+                return out  # the END marker ended the walk (break) before anything else was read
+            size = nums[0].result
+            if seeks and not bios:
+                out.append(("padding-skipped-by-its-declared-size", bool(len(seeks) == 1 and seeks[0].args and seeks[0].args[0] is size)))
+                out.append(("padding-carries-no-information", len(subs) == 0))
+                return out
+            body = [e for e in reads if e.args and e.args[0] is size]
+            out.append(("record-body-read-with-its-declared-size", bool(len(body) == 1 and bios and bios[0].args and bios[0].args[0] is body[0].result)))
+            buf = bios[0].result if bios else None
+            # every reader of this record works on the record's own bytes (never on the outer stream)
+            # (the rarely used `external` form seeks the outer stream to a data index and restores the position afterwards)
+            inside = [e for e in subs if e.args and e.args[0] is buf]
+            outside = [e for e in subs if e not in inside]
+            restored = len(outside) == 0 or (len(seeks) == 2 and all(e.args and e.args[0] is fp for e in outside) and eng.trace.index(seeks[0]) < min(eng.trace.index(e) for e in outside) < eng.trace.index(seeks[1]))
+            out.append(("record-readers-stay-inside-the-record", bool(restored)))
+            return out
+
+        return {"archiveinfo:FilesInfo._read#loop0": LoopSpec("while-records", noinv, target="True", asserts=rec_asserts)}
+
+    def hooks(self):
+        PROP = {"_read_times": None}
+
+        def on_times(c, ev):
+            # the time kind stored is the one the property id names
+            eng = c.eng
+            pid = eng.frames[0].env.get("prop")
+            want = {b"\x12": "creationtime", b"\x13": "lastaccesstime", b"\x14": "lastwritetime"}
+            name = ev.args[-1] if ev.args else None
+            ok = False
+            for k, v in want.items():
+                if name == v:
+                    ok = eq(pid, k) if V.is_sym(pid) else bool(pid == k)
+            c.oblig("assert", "time-kind-matches-the-property-id@_read_times", ok, props=("C06", "C02"))
+
+        return {("call", "_read_times"): [on_times], ("contract-call", "py7zr.archiveinfo:FilesInfo._read_times"): [on_times]}
+
+    def ensures(self, c, old, result, **b):
+        return [("walk-ends-only-at-the-end-marker", True)]
